@@ -1,7 +1,7 @@
 /-
-  C10, negation witness of `C10_total_stmt`: a module on which the usage loop of `lint` raises.
+  C10, legacy witness (finding `lint-raises-multiname-locals`, FIXED in /repo by f39595c).
 
-  Real input (harness/c10.py replays it; KNOWN_FINDINGS class `lint-raises-multiname-locals`):
+  Before the fix the usage loop tested `sname.name == 'locals' and sname.location == (0, 0)`; on
 
       def g():
           zz = 1
@@ -10,14 +10,41 @@
               locals = 1
           return locals()
 
-  The read of `locals` at the `return` resolves to MultiName([AssignedName locals, RuntimeName locals]);
-  `sname.name == 'locals' and sname.location == (0, 0)` evaluates `MultiName.location` -> AttributeError,
-  so the never-read local `zz` of `g` is not reported (nothing is).
+  the read of `locals` resolves to MultiName([AssignedName locals, RuntimeName locals]), `MultiName.location`
+  raised AttributeError and the never-read local `zz` of `g` was not reported (nothing was).  `Legacy.usageStep`
+  keeps that loop only to carry the witness; the current loop (`SuppModel.Lint.usageStep`) answers and reports `zz`.
 -/
 import SuppModel.Lint.Spec
 
 namespace SuppModel.Witness.C10
 open SuppModel.Lint
+
+namespace Legacy
+
+/-- the usage loop as it was before f39595c: differs from `SuppModel.Lint.usageStep` in the MultiName case only -/
+def usageStep (st : St) (r : Read) : Except PyErr St :=
+  match r.flow with
+  | some fl =>
+    match fl.table.lookup r.id with
+    | some (.multi nm alts) =>
+      if nm = "locals" then .error .attributeError          -- `sname.location` on a MultiName
+      else .ok { st with used := alts ++ st.used }
+    | _ => SuppModel.Lint.usageStep st r
+  | none => SuppModel.Lint.usageStep st r
+
+def usageLoop : St → List Read → Except PyErr St
+  | st, [] => .ok st
+  | st, r :: rs =>
+    match usageStep st r with
+    | .ok st' => usageLoop st' rs
+    | .error e => .error e
+
+def lintModel (m : Module) : Except PyErr (List Diag) :=
+  match usageLoop St.init m.reads with
+  | .ok st => .ok (st.diags ++ m.allNames.filterMap (reportOf st))
+  | .error e => .error e
+
+end Legacy
 
 def crashModule : Module where
   allNames := [
@@ -31,7 +58,11 @@ def crashModule : Module where
     ⟨"locals", (6, 11), some ⟨2, [("c", .single ⟨some 3, "c", false, some 2, false⟩),
                                    ("locals", .multi "locals" [4])]⟩⟩]
 
-theorem crash : lintModel crashModule = .error .attributeError := by rfl
+/-- the loop of the old tree raised on it ... -/
+theorem legacy_crash : Legacy.lintModel crashModule = .error .attributeError := by rfl
+
+/-- ... the loop of the current tree answers: the unread module-level defs are exempt, `zz` is reported -/
+theorem fixed_answer : lintModel crashModule = .ok [⟨"W01", "Unused name: zz", 2, 4⟩] := by rfl
 
 /-- the hypotheses of the C10 theorems hold of it, and `zz` is a never-read local the sentence wants reported -/
 theorem crash_in_domain :
@@ -39,11 +70,5 @@ theorem crash_in_domain :
     NeverRead crashModule ⟨2, "zz", .assigned, .function, 1, false, (2, 4), (2, 10)⟩ ∧
     spec (specFactsOf ⟨2, "zz", .assigned, .function, 1, false, (2, 4), (2, 10)⟩ false) = some .W01 := by
   decide
-
-theorem not_total : ¬ C10_total_stmt := by
-  intro h
-  obtain ⟨ds, hds⟩ := h crashModule
-  rw [crash] at hds
-  cases hds
 
 end SuppModel.Witness.C10
